@@ -398,7 +398,7 @@ fn gen_ops_from(rng: &mut Rng, p: Profile, n: usize, roots: u32, wroots: u32, mu
                 }
             }
             K::CasTagW => occ.live_wsnap(rng).map(|e| op(K::CasTagW, gen_wcell(rng, &occ, wroots, p_root), e as u32, tagi, 0)),
-            K::Defer => occ.live_guard(rng).map(|g| op(K::Defer, g as u32, rng.below(crate::closures::NSHAPES as u64) as u32, 0, 0)),
+            K::Defer => occ.live_guard(rng).map(|g| op(K::Defer, g as u32, rng.below(crate::closures::NSHAPES as u64) as u32, if rng.chance(0.25) { 1 + rng.below(3) as u32 } else { 0 }, 0)),
             K::TryAdvance => occ.live_guard(rng).map(|g| op(K::TryAdvance, g as u32, 0, 0, 0)),
             K::Collect => occ.live_guard(rng).map(|g| op(K::Collect, g as u32, 0, 0, 0)),
             K::Nop | K::Signal | K::Await | K::TlsInit | K::QPush | K::QPop | K::QPopIf | K::LIns | K::LDel | K::LTrav => None,
